@@ -119,7 +119,13 @@ def gen_mutated(rng):
         t = rng.random()
         if t < 0.5:
             frm = rng.choice((rx, rx, rx, (rx + 1) % 8, (rx - 1) % 8, rng.randrange(8)))
-            pl = bytes(rng.choice((0x7E, 0x7D, 0x11, 0x13, 0x18, 0x1A, rng.randrange(256))) for _ in range(rng.randrange(1, 12)))
+            if rng.random() < 0.08:
+                # a long frame whose wire image is (almost) all reserved bytes: every one of them is stuffed, the frame is about twice as long
+                # on the wire as its legal unstuffed length
+                n_ = rng.choice((100, 128, 140, 200, 250))
+                pl = bytes(R._RND[i] ^ rng.choice((0x7E, 0x7D, 0x11, 0x13, 0x18, 0x1A)) for i in range(n_))
+            else:
+                pl = bytes(rng.choice((0x7E, 0x7D, 0x11, 0x13, 0x18, 0x1A, rng.randrange(256))) for _ in range(rng.randrange(1, 12)))
             out += R.wire(R.f_data(frm, rng.randrange(2), rng.randrange(8), pl))
             if frm == rx:
                 rx = (rx + 1) % 8
@@ -168,11 +174,23 @@ def run_mutated(params, tape):
             continue
         ncuts = rng.choice((0, 0, 1, 2, 4, len(data)))
         cuts = sorted({rng.randrange(1, len(data)) for _ in range(ncuts)}) if len(data) > 1 else []
+        if len(data) > 400:
+            # long streams: no read longer than 400 bytes, so that the residue of one unterminated frame plus a read stays below the 1 KB bound
+            # of the quantifier
+            cs, last = [], 0
+            for c in cuts + [len(data)]:
+                while c - last > 400:
+                    last += 400
+                    cs.append(last)
+                if c < len(data):
+                    cs.append(c)
+                last = c
+            cuts = sorted(set(cs))
         err, model, host = e2.diff_stream(data, cuts)
         if err is not None:
             viol.append((err[0], "mutated", err[1]))
         if model.ev:
-            sigs.add(hashlib.blake2b(data + bytes(cuts[:8]), digest_size=8).digest())
+            sigs.add(hashlib.blake2b(data + repr(cuts[:8]).encode(), digest_size=8).digest())
             for e in model.ev:
                 probes[e[0]] = probes.get(e[0], 0) + 1
         for fr in model.frames:
